@@ -15,6 +15,9 @@ spec = {
   'probes': [{'kind': 'assist-attr'|'assist-bare'|'location'|'lint', 'file': mid, 'expr': str|None,
               'path': [mid, ...]}],  # modules the probe expression walks through (file first)
 }
+A module may carry 'broken': True (its initial content has a syntax error).  A package __init__ may be absent at
+the start ('present': False): its directory exists and holds modules, relative imports in them resolve nothing
+until the __init__ is created.  A main may live inside a package directory ('pkg' set, 'main' True).
 A module may carry 'shadow': <attribute name>: it is a sub-module of its package whose FILE is named like an
 attribute that the package's __init__ defines (pkg/K_<stem of pkg>.py); `from pkg import <attr>` resolves
 to it once it exists.  Nothing imports it by an explicit edge; successors() adds the implicit dependency.
@@ -29,6 +32,8 @@ History ops
 -----------
 ['create', mid] | ['rewrite', mid, d] | ['touch', mid, d] | ['put', mid, d]   (put = create if absent else rewrite)
 ['req', probe_index]
+['break', mid, d]   writes the module with a syntax error (creates it if absent); the next rewrite/put repairs it.
+A request that reaches a broken module raises SyntaxError on the long-lived and on the fresh project alike.
 d (optional, default 'f') is the direction in which the modification moves the file's mtime:
 'f' = to the next integer second above every mtime the file ever had, 'b' = to the integer second
 below every mtime the file ever had (a restored backup / VCS checkout / cp -p).  Either way the new
@@ -153,7 +158,7 @@ def import_line(spec, mid, e):
     return 'from %s import %s' % (src, names)
 
 
-def render(spec, mid, version):
+def render(spec, mid, version, broken=False):
     m = spec['modules'][mid]
     st = stem(spec, mid)
     lines = ['# %s version %d' % (dotted(spec, mid), version)]
@@ -172,7 +177,15 @@ def render(spec, mid, version):
               '_%s_private = 0' % st]
     for u in m.get('uses', ()):
         lines.append(u)
+    if broken:
+        lines.append('def (:   # saved in the middle of an edit')
     return '\n'.join(lines) + '\n'
+
+
+def is_relative(spec, mid, e):
+    m = spec['modules'][mid]
+    t = spec['modules'][e['to']]
+    return bool(e.get('rel') and m['pkg'] and m['pkg'] == t['pkg'])
 
 
 # --------------------------------------------------------------------------------------
@@ -189,6 +202,11 @@ def successors(spec, mid):
         if e['kind'] == 'import' and t['pkg'] and not t['init'] and t['pkg'] != mid:
             if not any(b == t['pkg'] for b, _ in out):
                 out.append((t['pkg'], 'import'))
+    # a relative import resolves only if the directory is a package: dependency on its __init__
+    m = spec['modules'][mid]
+    if m['pkg'] and not m['init'] and any(is_relative(spec, mid, e) for e in m['edges']):
+        if not any(b == m['pkg'] for b, _ in out):
+            out.append((m['pkg'], 'relative'))
     # `from pkg import attr` / `from pkg import *` first looks for a sub-module pkg.attr
     for sid, sm in spec['modules'].items():
         if sm.get('shadow') and sid != mid:
@@ -339,9 +357,9 @@ def request_source(spec, probe, text):
 # --------------------------------------------------------------------------------------
 # fixed 4-module chains for the exhaustive part
 
-def _mod(level, edges=(), pkg=None, init=False, present=True, main=False, shadow=None):
+def _mod(level, edges=(), pkg=None, init=False, present=True, main=False, shadow=None, broken=False):
     return {'pkg': pkg, 'init': init, 'present': present, 'main': main, 'level': level,
-            'edges': [dict(e) for e in edges], 'uses': [], 'shadow': shadow}
+            'edges': [dict(e) for e in edges], 'uses': [], 'shadow': shadow, 'broken': broken}
 
 
 def _e(kind, to, names=(), rel=False):
@@ -372,6 +390,29 @@ def chain_spec(variant, tag):
             'd': _mod(3, present=False),
             's': _mod(4, pkg='c', present=False, shadow=kc),
         }
+    elif variant == 'X':
+        # error path: w is on disk with a syntax error; `a.w.` validates a and then fails in w
+        mods = {
+            'm': _mod(0, [_e('import', 'a')], main=True),
+            'a': _mod(1, [_e('import', 'w')]),
+            'w': _mod(2, broken=True),
+        }
+        spec = {'tag': T, 'modules': mods, 'order': ['m', 'a', 'w']}
+        spec['probes'] = build_probes(spec)
+        return spec
+    elif variant == 'P':
+        # package creation: the directory p has modules but no __init__.py at the start; the requested
+        # file r lives in it and uses relative imports only
+        kh = 'K_%sh' % T
+        mods = {
+            'r': _mod(0, [_e('from_mod', 'h', rel=True), _e('from', 'h', [kh], rel=True), _e('star', 'h', rel=True)],
+                      pkg='p', main=True),
+            'p': _mod(1, pkg='p', init=True, present=False),
+            'h': _mod(1, pkg='p'),
+        }
+        spec = {'tag': T, 'modules': mods, 'order': ['r', 'p', 'h']}
+        spec['probes'] = build_probes(spec)
+        return spec
     else:
         raise ValueError(variant)
     spec = {'tag': T, 'modules': mods, 'order': ['m', 'a', 'b', 'c', 'd', 's']}
@@ -388,6 +429,16 @@ def chain_alphabet(variant, spec):
             if p['kind'] == kind and p['expr'] == expr:
                 return ['req', i]
         raise AssertionError((kind, expr, [(p['kind'], p['expr']) for p in spec['probes']]))
+    if variant == 'X':
+        a, w = T + 'a', T + 'w'
+        mods = [['rewrite', 'a'], ['touch', 'a'], ['break', 'w'], ['put', 'w']]
+        reqs = [req('assist-attr', a), req('assist-attr', '%s.%s' % (a, w)), req('assist-attr', '%s.K_%sa' % (a, T))]
+        return mods, reqs
+    if variant == 'P':
+        h = T + 'h'
+        mods = [['put', 'p'], ['rewrite', 'h'], ['touch', 'h']]
+        reqs = [req('assist-attr', h), req('assist-bare', None), req('location', 'K_%sh' % T), req('lint', None)]
+        return mods, reqs
     if variant == 'S':
         mods = [['rewrite', 'a'], ['rewrite', 'b'], ['rewrite', 'c'], ['touch', 'a'], ['touch', 'b'], ['put', 'd'], ['put', 's']]
         reqs = [req('assist-bare', None), req('assist-attr', 'K_%sc' % T), req('location', 'K_%sc' % T),
@@ -417,9 +468,12 @@ def chain_count(mods, reqs, length):
     return len(reqs) * (len(mods) + len(reqs)) ** (length - 1)
 
 
+MODIFYING = ('rewrite', 'touch', 'put', 'break')
+
+
 def op_code(op):
     """E/T/P/C/R + target; lower case (e/t/p) = the modification moves the mtime backward"""
-    c = {'rewrite': 'E', 'touch': 'T', 'put': 'P', 'create': 'C', 'req': 'R'}[op[0]]
+    c = {'rewrite': 'E', 'touch': 'T', 'put': 'P', 'create': 'C', 'req': 'R', 'break': 'B'}[op[0]]
     if len(op) > 2 and op[2] == 'b' and op[0] != 'create':
         c = c.lower()
     return c + str(op[1])
@@ -429,7 +483,7 @@ def with_directions(hist, rng, p_back=0.5):
     """copy of hist in which every modification carries a seed-determined mtime direction"""
     out = []
     for op in hist:
-        if op[0] in ('rewrite', 'touch', 'put'):
+        if op[0] in MODIFYING:
             out.append([op[0], op[1], 'b' if rng.random() < p_back else 'f'])
         else:
             out.append(list(op))
@@ -437,7 +491,7 @@ def with_directions(hist, rng, p_back=0.5):
 
 
 def forward_only(hist):
-    return [[op[0], op[1], 'f'] if op[0] in ('rewrite', 'touch', 'put') else list(op) for op in hist]
+    return [[op[0], op[1], 'f'] if op[0] in MODIFYING else list(op) for op in hist]
 
 
 # --------------------------------------------------------------------------------------
@@ -528,7 +582,8 @@ def random_spec(rng, tag):
                 e['names'] = rng.sample(vis, k)
     # a sub-module, absent at the start, named like an attribute that a package __init__ defines and that
     # somebody from-imports / star-imports from the package
-    if len(mods) <= 5 and pkgs and rng.random() < 0.8:
+    feature = rng.choice(('shadow', 'shadow', 'inpkg', 'inpkg', 'inpkg', 'none'))
+    if len(mods) <= 5 and pkgs and feature == 'shadow':
         cands = []
         for x in sorted(mods):
             for e in mods[x]['edges']:
@@ -542,6 +597,22 @@ def random_spec(rng, tag):
                 e['names'].append(attr)
             mods['s'] = _mod(mods[pk]['level'] + 1, pkg=pk, present=False, shadow=attr)
             spec['order'].append('s')
+    # a requested file INSIDE a package directory that uses relative imports only; in most cases the
+    # directory is not a package yet (its __init__.py is absent at the start and created later)
+    if len(mods) <= 5 and pkgs and feature == 'inpkg':
+        pk = rng.choice(pkgs)
+        members = [x for x in sorted(mods) if mods[x]['pkg'] == pk and not mods[x]['init']
+                   and not mods[x].get('shadow') and not mods[x]['main']]
+        if members:
+            edges = []
+            for t in rng.sample(members, min(len(members), rng.randint(1, 2))):
+                for k in rng.sample(['from_mod', 'from', 'star'], rng.randint(1, 3)):
+                    names = [rng.choice([cls_name(spec, t), var_name(spec, t)])] if k == 'from' else []
+                    edges.append(_e(k, t, names, rel=True))
+            mods['r'] = _mod(0, edges, pkg=pk, main=True)
+            spec['order'].append('r')
+            if rng.random() < 0.7:
+                mods[pk]['present'] = False
     spec['probes'] = build_probes(spec)
     return spec
 
@@ -550,9 +621,19 @@ def random_history(rng, spec, max_len=40):
     mods = spec['modules']
     present = {x for x in mods if mods[x]['present']}
     absent = [x for x in mods if not mods[x]['present']]
+    breakable = sorted(x for x in present if not mods[x]['main'])
+    broken = set(x for x in present if mods[x].get('broken'))
     n = rng.randint(6, max_len)
-    nprobes = len(spec['probes'])
+    probes = spec['probes']
+    nprobes = len(probes)
     favourites = [rng.randrange(nprobes) for _ in range(3)]
+
+    def direction():
+        return 'b' if rng.random() < 0.4 else 'f'
+
+    def probe_on(mid):
+        c = [i for i, p in enumerate(probes) if p['file'] == mid]
+        return rng.choice(c) if c else rng.randrange(nprobes)
     hist = []
     for i in range(n):
         r = rng.random()
@@ -562,9 +643,41 @@ def random_history(rng, spec, max_len=40):
         elif r < 0.55 and absent:
             x = absent.pop(rng.randrange(len(absent)))
             present.add(x)
-            hist.append(['create', x])
-        elif r < 0.88:
-            hist.append(['rewrite', rng.choice(sorted(present)), 'b' if rng.random() < 0.4 else 'f'])
+            inside = [m for m in mods if mods[x]['init'] and mods[m]['main'] and mods[m]['pkg'] == x]
+            if inside:
+                # a package comes into being: ask through the file inside it before and after
+                hist.append(['req', probe_on(inside[0])])
+                hist.append(['create', x])
+                hist.append(['req', probe_on(inside[0])])
+            else:
+                hist.append(['create', x])
+        elif r < 0.60 and breakable:
+            x = rng.choice(breakable)
+            broken.add(x)
+            hist.append(['break', x, direction()])
+        elif r < 0.70 and broken:
+            x = rng.choice(sorted(broken))
+            broken.discard(x)
+            hist.append(['rewrite', x, direction()])
+        elif r < 0.90:
+            x = rng.choice(sorted(present))
+            broken.discard(x)
+            hist.append(['rewrite', x, direction()])
         else:
-            hist.append(['touch', rng.choice(sorted(present)), 'b' if rng.random() < 0.4 else 'f'])
+            hist.append(['touch', rng.choice(sorted(present)), direction()])
+    # planted error-path episode: a request that validates x and then fails in the broken module y,
+    # an edit of x, and a request through x that does not reach y
+    deep = [i for i, p in enumerate(probes) if len(p['path']) >= 3 and p['kind'] != 'lint'
+            and all(mods[z]['present'] for z in p['path']) and not mods[p['path'][-1]]['main']]
+    if deep and rng.random() < 0.35:
+        pi = rng.choice(deep)
+        path = probes[pi]['path']
+        x, y = path[1], path[-1]
+        shallow = [i for i, p in enumerate(probes) if p['file'] == path[0] and p['path'] == path[:2] and p['kind'] == 'assist-attr']
+        q = rng.choice(shallow) if shallow else pi
+        episode = [['req', pi], ['break', y, direction()], ['req', pi], ['rewrite', x, direction()], ['req', q]]
+        if rng.random() < 0.7:
+            episode += [['rewrite', y, direction()], ['req', pi]]
+        at = rng.randint(0, len(hist))
+        hist[at:at] = episode
     return hist
